@@ -48,6 +48,7 @@ PROPS = {
         "verus": [(U1, ["C04.end", "C04.write", "U1.end"]), (U5, [])],
     },
     "C06": {
+        "native": ["n2_text"],
         "witness": ("w_server", ['w_c03_responses']),
         "title": "Text-protocol result values arrive unchanged",
         "kani": [("k6_deps", ["k6_write_lenenc_int", "k6_write_lenenc_str"]), ("k4_values", ["k4_bytes_text", "k4_option_text", "k4_forwarders", "k4_forwarders_str"])],
